@@ -88,7 +88,15 @@ def family(name):
     return _FAM[name]
 
 
+_TIER = ["quick"]       # storage / reuse clauses: every 8th matrix in the quick tier, every matrix in the thorough tier
+
+
+def tier_is_thorough():
+    return _TIER[0] == "thorough"
+
+
 def setup(tier):
+    _TIER[0] = tier
     for f in _families(tier):
         family(f)
 
@@ -317,7 +325,7 @@ def _flush(o, agg):
 # covariance matrices far larger than the exhaustive families (size classes where LAPACK drivers block):
 # C = G G^T / m with a deterministic integer factor G (m x rank), full rank and rank deficient
 ABIG = [(40, 40, 5), (40, 25, 5), (70, 70, 10), (70, 41, 10), (130, 130, 8), (130, 97, 8),
-        (620, 620, 2), (700, 530, 3), (1100, 1100, 1)]       # off-axis blocks above 512 / 1024 measurements
+        (620, 620, 2), (700, 530, 3), (1030, 1030, 1)]       # off-axis blocks above 512 / 1024 measurements
 
 
 def _abig_matrix(m, k):
@@ -344,10 +352,15 @@ def _evaluate_abig(p):
     Cff = C[2 * non:, 2 * non:]
     w, V = numpy.linalg.eigh(Cff)
     agg = {"shape": 0}
-    for rc in RCONDS:
+    big = p["m"] >= 600
+    for rc in ((0.0, 0.1) if big else RCONDS):
         _judge(o, fn, C, non, rc, "rc=%g" % rc, agg, (w, V))
     _flush(o, agg)
-    _storage_and_reuse(o, fn, C, non, 0.1)
+    if big:
+        from mc import variants
+        o.stat("lib_calls", variants.check_reuse(o, "matrix", lambda a: fn(a, non, 0.1), C, 1e-12))
+    else:
+        _storage_and_reuse(o, fn, C, non, 0.1)
     wmax = float(numpy.max(numpy.abs(w)))
     o.stat("nontrivial_rank_deficient_offoff", int((numpy.abs(w) <= ZERO_EIG * wmax).any()))
     o.outcome((p["m"], p["k"], int((numpy.abs(w) > ZERO_EIG * wmax).sum())))
@@ -388,7 +401,7 @@ def evaluate(p):
                 deficient += 1
             for rc in RCONDS:
                 _judge(o, fn, C, non, rc, "i=%d:non=%d:rc=%g" % (idx, non, rc), agg, (w, V))
-            if wmax > 0 and float(numpy.min(numpy.abs(numpy.abs(w) / wmax - 0.5))) > 1e-6:
+            if (idx % 8 == 0 or tier_is_thorough()) and wmax > 0 and float(numpy.min(numpy.abs(numpy.abs(w) / wmax - 0.5))) > 1e-6:
                 # (not when an eigenvalue sits exactly on the cut: there the classification may legitimately flip)
                 _storage_and_reuse(o, fn, fam[idx].astype(float), non, 0.5, sub="i=%d:non=%d" % (idx, non))
     _flush(o, agg)
